@@ -101,6 +101,8 @@ struct CamScript
     // first hardware frame id of every run (a camera need not count from 0;
     // kept below 2^39: the mock's timestamps carry the id in their low bits)
     int64_t hw_base = 0;
+    // interleaved channels per pixel the camera reports (1 = mono)
+    int channels = 1;
 };
 
 struct CamState
@@ -425,9 +427,10 @@ install_hooks()
         if (c.props.shape.y > 64)
             c.props.shape.y = 64;
         memset(&c.shape, 0, sizeof(c.shape));
-        c.shape.dims = { 1, c.props.shape.x, c.props.shape.y, 1 };
-        c.shape.strides = { 1, 1, (int64_t)c.props.shape.x,
-                            (int64_t)c.props.shape.x * c.props.shape.y };
+        const uint32_t ch = (uint32_t)std::max(1, c.script.channels);
+        c.shape.dims = { ch, c.props.shape.x, c.props.shape.y, 1 };
+        c.shape.strides = { 1, (int64_t)ch, (int64_t)ch * c.props.shape.x,
+                            (int64_t)ch * c.props.shape.x * c.props.shape.y };
         c.shape.type = c.props.pixel_type;
         *p = c.props;
         return Device_Ok;
@@ -491,8 +494,8 @@ install_hooks()
         int dev = mock::instance(inst).dev;
         CamState& c = W->cam[camdev_index(dev)];
         uint64_t ord = c.calls++;
-        size_t need = (size_t)c.shape.dims.width * c.shape.dims.height *
-                      bytes_per_px((int)c.shape.type);
+        size_t need = (size_t)c.shape.dims.channels * c.shape.dims.width *
+                      c.shape.dims.height * bytes_per_px((int)c.shape.type);
         if (*nbytes < need)
             oracle_fail("C05.buffer_smaller_than_image",
                         "camera #%d: the runtime offers a %zu-byte buffer for "
@@ -803,7 +806,8 @@ judge_stream(const AcqRec& a, int s)
     {
         // did this acquisition alone write more than a ring holds?
         size_t in_b = sizeof(struct VideoFrame) +
-                      align8((size_t)c.w * c.h * bytes_per_px(c.type));
+                      align8((size_t)c.cs.channels * c.w * c.h *
+                             bytes_per_px(c.type));
         size_t out_b = c.avg > 1 ? sizeof(struct VideoFrame) +
                                      align8((size_t)c.w * c.h * 4)
                                  : in_b;
@@ -1296,6 +1300,9 @@ struct RtHarness : Harness
                 c.n = (uint64_t)g.range(1, 20);
             }
         }
+        if (c.avg <= 1 && g.chance(0.1))
+            // a camera that reports interleaved colour pixels
+            c.cs.channels = g.chance(0.5) ? 3 : 4;
         if (g.chance(0.12)) {
             // hardware frame ids that do not start at 0: around 2^32, or large
             static const int64_t bases[] = { (1ll << 32) - 3, 1ll << 32,
@@ -1324,21 +1331,23 @@ struct RtHarness : Harness
                  "cfg s=%d cam=%s sto=%s n=%lld w=%d h=%d t=%d avg=%d delay=%lld "
                  "exp=%lld trig=%d gapat=%lld zeroat=%lld failframe=%lld "
                  "failappend=%lld slow=%lld failcamstart=%d failstostart=%d "
-                 "failset=%d failcamstop=%d hwbase=%lld",
+                 "failset=%d failcamstop=%d hwbase=%lld ch=%d",
                  s, c.cam.c_str(), c.sto.c_str(),
                  c.n == INF_FRAMES ? -1ll : (long long)c.n, c.w, c.h, c.type,
                  c.avg, (long long)c.delay_us, (long long)c.cs.exposure_us,
                  c.trig, (long long)c.cs.gap_at, (long long)c.cs.zero_at,
                  (long long)c.cs.fail_frame, (long long)c.ss.fail_append,
                  (long long)c.ss.slow_us, c.cs.fail_start, c.ss.fail_start,
-                 c.cs.fail_set, c.cs.fail_stop, (long long)c.cs.hw_base);
+                 c.cs.fail_set, c.cs.fail_stop, (long long)c.cs.hw_base,
+                 c.cs.channels);
         return b;
     }
 
     static size_t frame_bytes(const StreamCfg& c, bool averaged)
     {
         size_t bpp = averaged ? 4 : bytes_per_px(c.type);
-        return sizeof(struct VideoFrame) + align8((size_t)c.w * c.h * bpp);
+        size_t ch = averaged ? 1 : (size_t)std::max(1, c.cs.channels);
+        return sizeof(struct VideoFrame) + align8(ch * c.w * c.h * bpp);
     }
 
     static std::string mon_line(Rng& g, int s)
@@ -1691,6 +1700,9 @@ struct RtHarness : Harness
         c.cs.fail_set = (int)op.i("failset", 0);
         c.cs.fail_stop = (int)op.i("failcamstop", 0);
         c.cs.hw_base = op.i("hwbase", 0);
+        c.cs.channels = (int)std::max<int64_t>(1, std::min<int64_t>(4, op.i("ch", 1)));
+        if (c.avg > 1)
+            c.cs.channels = 1;
         c.ss.fail_append = op.i("failappend", -1);
         c.ss.slow_us = op.i("slow", 0);
         c.ss.fail_start = (int)op.i("failstostart", 0);
